@@ -2,7 +2,7 @@
    genesis of Examples.v as a non-vacuity witness for every premise. *)
 From Coq Require Import List ZArith NArith Bool Lia.
 From PM Require Import Base.Bytes Store.KV Store.MergeProofs Store.KVProofs App.Model App.BankProofs
-  App.IndexProofs App.PoolProofs App.QueueProofs App.Examples.
+  App.IndexProofs App.IndexComplete App.PoolProofs App.QueueProofs App.Examples.
 Import ListNotations.
 Local Open Scope Z_scope.
 
@@ -30,3 +30,22 @@ Proof.
 Qed.
 Lemma ex_ops_signers_ok : Forall (op_ok ex_ma) ex_ops.
 Proof. repeat constructor; cbn; discriminate. Qed.
+
+Lemma ex_s0_idx_exact : idx_exact ex_s0.
+Proof.
+  split; [exact ex_s0_idx_sound|]. split; [exact I|split; [exact I|]]. split; intros a v E; discriminate E.
+Qed.
+Lemma ex_genesis_idx_exact : exists s ups, ex_genesis = Some (s, ups) /\ idx_exact s /\ queue_sound s.
+Proof.
+  destruct ex_genesis as [[s ups]|] eqn:E; [|vm_compute in E; discriminate]. exists s, ups. split; auto. unfold ex_genesis in E. split.
+  - eapply init_chain_exact; [exact ex_s0_idx_exact| | | |exact E].
+    + repeat constructor. intros [].
+    + intros g [<-|[]]. reflexivity.
+    + intros g [<-|[]]. repeat constructor.
+  - eapply init_chain_qs; [| | |exact E].
+    + split; [exact I|split; [exact I|]]. intros k l a Ek. discriminate Ek.
+    + repeat constructor. intros [].
+    + intros g [<-|[]]. reflexivity.
+Qed.
+Lemma ex_ops_wf : Forall op_wf ex_ops.
+Proof. repeat constructor; cbn; repeat constructor. Qed.
